@@ -4,9 +4,9 @@
 //! health check systems to proactively open or close the circuit breaker
 //! based on external health signals.
 
+use crate::Mutex;
 use crate::{CircuitBreaker, CircuitBreakerWithFallback};
 use std::sync::Arc;
-use tokio::sync::Mutex;
 use tower_resilience_core::HealthTriggerable;
 
 use crate::circuit::Circuit;
